@@ -90,10 +90,50 @@ def _corpus():
                                                                 ('assert', EQ(CALL(4, V(7), N(1)), N(11))), ('assert', EQ(CALL(4, V(1), N(0)), N(7)))]})
     # an index out of range inside a shadow test: the evaluator ends nanoc with exit status 1 on the spot -- no executable
     c['c06:corpus:out-of-range-in-shadow-test'] = (parr, {4: [P(N(1)), ('assert', EQ(CALL(4, V(1), N(2)), N(0)))]})
+    # ---- which shadow blocks run: ALL of them (several per function, before / far from the function, for imported functions)
+    clamp = fn(2, [(3, 'int')], 'int', seq(('if', ('bin', 'lt', V(3), N(0)), ('ret', N(0)), ('skip',)), ('ret', V(3))))
+    other = fn(4, [(5, 'int')], 'int', ('ret', ('bin', 'mul', V(5), N(3))))
+    pm = prog([clamp, other, MAIN])
+    T = lambda f, a, r: ('assert', EQ(CALL(f, N(a)), N(r)))
+    c['c06:corpus:two-blocks-first-false'] = (pm, {2: [T(2, 5, 5), T(2, -3, -3)], (2, 1): [T(2, 42, 42)]},
+                                              dict(items=[('fn', 2), ('sh', 2), ('sh', (2, 1)), ('fn', 4), ('sh', 4), ('fn', 0), ('sh', 0)]))
+    c['c06:corpus:three-blocks-middle-false-scattered'] = (pm, {2: [T(2, 1, 1)], (2, 1): [T(2, 2, 3)], (2, 2): [T(2, 3, 3)]},
+                                              dict(items=[('sh', 2), ('fn', 2), ('fn', 4), ('sh', (2, 1)), ('sh', 4), ('fn', 0), ('sh', 0), ('sh', (2, 2))]))
+    c['c06:corpus:block-before-function-false'] = (pm, {4: [T(4, 2, 7)]},
+                                              dict(items=[('sh', 4), ('fn', 2), ('sh', 2), ('fn', 4), ('fn', 0), ('sh', 0)]))
+    c['c06:corpus:imported-function-block-false'] = (pm, {4: [T(4, 2, 7)]},
+                                              dict(items=[('fn', 2), ('sh', 2), ('fn', 0), ('sh', 4), ('sh', 0)], imported=[4]))
+    c['c06:corpus:imported-function-two-blocks-last-false'] = (pm, {4: [T(4, 2, 6)], (4, 1): [T(4, 1, 4)]},
+                                              dict(items=[('sh', 4), ('fn', 2), ('sh', 2), ('fn', 0), ('sh', 0), ('sh', (4, 1))], imported=[4]))
     return c
 
 
 CORPUS = _corpus()
+
+
+def corpus_case(S, k):
+    v = CORPUS[k]
+    return S.hand_case(k, v[0], v[1], **(v[2] if len(v) > 2 else {}))
+
+
+# hand-written sources: a false assertion in the IMPORTED MODULE's own shadow block (finding c06:module-shadow-blocks-never-run)
+MODULE_OWN_BLOCK = dict(
+    mod='''pub fn f1(v2: int) -> int {
+    return (* v2 3)
+}
+shadow f1 {
+    assert (== (f1 1) 4)
+}
+''',
+    main='''from "mod.nano" import f1
+fn main() -> int {
+    (println (f1 4))
+    return 0
+}
+shadow main {
+    assert true
+}
+''')
 
 # hand-written source (outside the model's program type: extern function): a shadow test that is SKIPPED cannot fail the gate
 SKIP_EXTERN_SRC = '''extern fn labs(x: int) -> int
